@@ -15,7 +15,10 @@ ASSUME = ["per-call I/O faults are injected with strace (-e inject=pread64|pwrit
 REF = ["with_groups.h5", "test_attributes.h5", "compound_test.h5", "string_test.h5", "test_3d_chunked.h5", "v0.h5", "v3.h5",
        "various_types.h5", "with_attributes.h5", "vlen_strings.h5",
        # version 0 files of the reference library with nested groups (cached symbol tables) and continuation blocks
-       "hdf5_official/tname-amp.h5", "hdf5_official/tgroup.h5", "hdf5_official/tattr.h5", "hdf5_official/torderattr.h5"]
+       "hdf5_official/tname-amp.h5", "hdf5_official/tgroup.h5", "hdf5_official/tattr.h5", "hdf5_official/torderattr.h5",
+       # chunked datasets behind filters that cannot notice garbage themselves (shuffle only, Fletcher-32 only): a failed chunk
+       # read must surface as an error, the filter must not be handed whatever the buffer held
+       "hdf5_official/h5repack_shuffle.h5", "hdf5_official/h5repack_fletcher.h5"]
 
 
 def strace_ok():
@@ -100,7 +103,8 @@ def run(ctx):
                 if os.path.exists(out):
                     os.remove(out)
 
-        rsubjects = subjects[:2] + [s for s in subjects if "with_groups" in s or "test_attributes" in s or "3d_chunked" in s]
+        rsubjects = subjects[:2] + [s for s in subjects if "with_groups" in s or "test_attributes" in s or "3d_chunked" in s
+                                    or "h5repack_shuffle" in s or "h5repack_fletcher" in s]
         if thorough:
             rsubjects = subjects
         with concurrent.futures.ThreadPoolExecutor(max_workers=ctx.workers) as ex:
